@@ -11,11 +11,19 @@ import provider_driver as pd
 import world
 
 
+def with_version(p, v):
+    p.protocol_version = v
+    return p
+
+
 def alphabet(acceptor, max_len=16384):
     """Operations a history is made of (the property's alphabet)."""
     peer = [
         ('rq', ('seg', pd.mk_rq(max_len).encode())), ('ac', ('seg', pd.mk_ac(max_len).encode())),
         ('rj', ('seg', pd.mk_rj().encode())),
+        # a peer supporting several protocol versions announces them all (bit 0 = version 1 is what counts)
+        ('rq_v3', ('seg', with_version(pd.mk_rq(max_len), 3).encode())),
+        ('ac_v3', ('seg', with_version(pd.mk_ac(max_len), 0x8001).encode())),
         ('data', ('seg', b''.join(p.encode() for p in pd.fragments(pd.mk_message('echo_rq', 1), 1, max_len)))),
         # a partial P-DATA: the first command fragment of a C-ECHO-RQ, cut at an element boundary (group length +
         # affected SOP class = 38 bytes) so that what follows is decided by the modelled strict reader, not by
@@ -97,6 +105,30 @@ def histories(acceptor, base_ops, depth, rng, n_random, walk_len):
     return out
 
 
+def straddling_histories(acceptor, base_ops):
+    """A peer message split over several P-DATA-TF PDUs with something else happening between its fragments:
+    the local release request (the rest then arrives in Sta7), an outgoing message, the peer's release request
+    (protocol error of the peer), a time advance."""
+    frags = pd.fragments(pd.mk_message('store_rq', 2, 120), 3, 70)
+    first, rest = frags[0].encode(), [f.encode() for f in frags[1:]]
+    _peer, user = alphabet(acceptor)
+    udict = dict(user)
+    betweens = [('u_relrq', [udict['u_relrq']]), ('u_data', [udict['u_data']]), ('tick3', [('tick', 3)]),
+                ('u_abort', [udict['u_abort']]), ('nothing', [])]
+    out = []
+    for name, mid in betweens:
+        for split_rest in (False, True):
+            ops = list(base_ops) + [('seg', first), ('idle',)] + list(mid) + [('idle',), ('idle',)]
+            if split_rest:
+                for r in rest:
+                    ops += [('seg', r), ('idle',)]
+            else:
+                ops += [('seg', b''.join(rest)), ('idle',)]
+            ops += [('idle',), ('seg', pd.mk_rel_rp().encode())] + [('idle',)] * 3
+            out.append((['first-fragment', name, 'rest' + ('-split' if split_rest else ''), 'relrp'], ops))
+    return out
+
+
 def timed_histories(acceptor, base_ops):
     """ARTIM is running: a non-expiring time advance, then traffic, then further advances that pass the
     original deadline (the timer must not have been re-armed by the traffic)."""
@@ -132,6 +164,9 @@ def main(tier, seed, prop='C05'):
         if label in ('sta2', 'sta13'):
             for names, ops in timed_histories(acceptor, base_ops):
                 cases.append(([label] + names, acceptor, ops))
+        if label in ('sta6', 'sta8'):
+            for names, ops in straddling_histories(acceptor, base_ops):
+                cases.append(([label] + names, acceptor, ops))
     obs = []
     terms = []
     for names, acceptor, ops in cases:
@@ -147,7 +182,7 @@ def main(tier, seed, prop='C05'):
     cov['distinct_nontrivial'] = len(set(tuple(n) for n, _a, _o, r in obs if len(r['wire']) + len(r['given']) >= 2))
     cov['rule'] = ('scenario corpus (both roles, first segment waiting or not) + exhaustive histories to depth %d from each of 14 base states (Sta1..Sta13, both roles) over '
                    '{7 PDU types, complete / partial / unusable P-DATA, unknown type, close, ARTIM expiry, tick, idle, legal user '
-                   'primitives} + timed histories around the ARTIM deadline + seeded random walks; non-trivial = at least two wire/indication outputs' % depth)
+                   'primitives} + timed histories around the ARTIM deadline + a fragmented peer message with the local release request / an outgoing message / a time advance between its fragments + seeded random walks; non-trivial = at least two wire/indication outputs' % depth)
     cov['distribution'] = dict(final_states=dict((str(k), sum(1 for o in obs if o[3]['final']['st'] == k)) for k in range(1, 14)),
                                outcomes=dict((k, sum(1 for o in obs if o[3]['outcome'] == k)) for k in pd.OUTCOME))
     cov['samples'] = [dict(history=o[0], acceptor=o[1], result=pd.summary(o[3])) for o in obs[3:6]]
